@@ -194,6 +194,35 @@ def run(ctx):
     ctx.check(ok, 'R4', 'timeout:raises-when-alive', tmod, alive[0] if alive else to,
               "a thread that is still alive after the limit is not terminated and reported with TimeoutError",
               "an infinite loop returns normally / with the wrong exception")
+    # nothing the grader runs after the limit may wait for the student thread to die: terminate()/raise_exception()
+    # (and any helper of the thread class they call) contain no wait of unbounded total length
+    tcls = tmod.cls('InterruptableThread')
+    from ..astutil import flat_self_calls
+    after_limit = [tmod.func('InterruptableThread.terminate'), tmod.func('InterruptableThread.raise_exception')]
+    seen_m = {f.name for f in after_limit}
+    for c in [c for f in list(after_limit) for c in flat_self_calls(f.body, tcls)]:
+        if isinstance(c.func, ast.Attribute) and isinstance(c.func.value, ast.Name) and c.func.value.id == 'self':
+            for m_ in tcls.body:
+                if isinstance(m_, ast.FunctionDef) and m_.name == c.func.attr and m_.name not in seen_m:
+                    seen_m.add(m_.name)
+                    after_limit.append(m_)
+    for f in after_limit:
+        ctx.analysed_function(tmod, f)
+        for n in walk_local(f):
+            unbounded = isinstance(n, ast.While) and (
+                any('is_alive' in norm(x) for x in ast.walk(n.test)) or
+                any(isinstance(c.func, ast.Attribute) and c.func.attr in ('join', 'wait', 'sleep', 'is_alive')
+                    for c in calls(n)))
+            untimed = isinstance(n, ast.Call) and isinstance(n.func, ast.Attribute) and n.func.attr == 'join' and \
+                not n.args and not n.keywords
+            ctx.check(not (unbounded or untimed), 'R4', 'thread:%s:no-waiting-for-death' % f.name, tmod, n if (
+                unbounded or untimed) else f,
+                      "%s waits for the student thread to die (%s); a thread that swallows the injected exception or "
+                      "is blocked in C never dies, so timeout() never raises TimeoutError" % (
+                          f.name, 'a loop around join/is_alive' if unbounded else 'an un-timed join()'),
+                      "student code `while True: try: ... except BaseException: pass`, or a thread blocked in "
+                      "Lock.acquire(): run(threaded=True) hangs forever") if (unbounded or untimed) else None
+        ctx.ok('R4', 'thread:%s:scanned' % f.name, nontrivial=False)
     init = tmod.func('InterruptableThread.__init__')
     ctx.check(any(isinstance(n, ast.Assign) and is_self_attr(n.targets[0], 'daemon') and
                   isinstance(n.value, ast.Constant) and n.value.value is True for n in body_walk(init)),
@@ -207,6 +236,8 @@ def run(ctx):
 
     ctx.rule('R5', "clean patch state afterwards: the grader's timeout arm releases through _stop_mocking (C05.R3 "
                    "applied to the grader role)")
+    from .c05 import cross_thread_release
+    cross_thread_release(ctx, sym, mod, 'R5')
     from ..astutil import flat_self_calls
     gseq = flat_self_calls(list(grader_stmts), mod.cls('Sandbox'),
                            stop=('_stop_mocking', '_stop_patches', '_capture_exception'))
